@@ -270,19 +270,39 @@ func (e *Engine) verifyFuncInstance(rep *FuncReport, fn *ssa.Function, fc *contr
 		r.frameObligations(fr, en2, pre, exit, fc.Modifies, alloc0)
 	}
 	for k, cl := range fc.Ensures {
-		g := en2.evalBool(cl.Expr)
-		cs := r.C().SplitGoal(g)
-		for j, cj := range cs {
-			label := fmt.Sprintf("%d", k)
-			if cl.Label != "" {
-				label = cl.Label
+		label := fmt.Sprintf("%d", k)
+		if cl.Label != "" {
+			label = cl.Label
+		}
+		// clause-level family: one group of obligations per instance
+		type inst struct {
+			suffix string
+			en     *env
+		}
+		insts := []inst{{"", en2}}
+		if cl.Foreach != nil {
+			fis, err := e.foreachInstances(cl.Foreach, pkg)
+			if err != nil {
+				r.fail("ensures[%s]: %v", label, err)
+				continue
 			}
-			nm := fmt.Sprintf("ensures[%s", label)
-			if len(cs) > 1 {
-				nm += fmt.Sprintf(".c%d", j)
+			insts = nil
+			for _, fi := range fis {
+				sub := en2.child()
+				sub.vars[fi.Var] = fi.Val
+				insts = append(insts, inst{":" + fi.Label, sub})
 			}
-			nm += "]"
-			r.oblige("ensures", nm, exit.guard, cj, "ensures "+cl.Text)
+		}
+		for _, in := range insts {
+			cs := in.en.evalGoalParts(cl.Expr)
+			for j, cj := range cs {
+				nm := fmt.Sprintf("ensures[%s%s", label, in.suffix)
+				if len(cs) > 1 {
+					nm += fmt.Sprintf(".c%d", j)
+				}
+				nm += "]"
+				r.oblige("ensures", nm, exit.guard, cj, "ensures "+cl.Text)
+			}
 		}
 	}
 }
@@ -511,8 +531,8 @@ func (e *Engine) verifyLemmaInstance(rep *FuncReport, lr *LemmaRef, inst foreach
 				r.obls = append(r.obls, &Obligation{Name: name + "#vacuity[hyp]", Kind: "vacuity", Props: l.Props, Func: name,
 					Facts: r.facts[:len(r.facts):len(r.facts)], Goal: en.cur.alive, Expect: "sat", Text: "lemma hypotheses are satisfiable"})
 			}
-			g := en.evalBool(st.Expr)
-			cs := r.C().SplitGoal(g)
+			cs := en.evalGoalParts(st.Expr)
+			g := c.And(cs...)
 			for j, cj := range cs {
 				nm := fmt.Sprintf("assert[%d", nAssert)
 				if st.Label != "" {
